@@ -1,11 +1,11 @@
 SPECIFICATION Spec
 CONSTANTS
-  Txs <- T3
-  Subm <- S3
+  Txs <- T2
+  Subm <- S2
   Limit = 0
-  MaxBlk = 2
+  MaxBlk = 1
   PushChecked = TRUE
-  AtomicAppend = TRUE
+  AtomicAppend = FALSE
   KeepCommittedInCache = TRUE
 VIEW view
 INVARIANTS NoDuplicates HeldIsCached WithinBounds NoReofferCommitted
